@@ -270,7 +270,9 @@ Section RtAll.
         destruct (resume_fold_rt l s0 D0) as [A B]; use_core l s0;
         apply (inv_rt_same_lookup s0); [exact A|exact B|exact HCrtown|exact HCrtclaims|exact Hinv]
       end.
-    - cbn [snd]. unfold epoch_change. eapply inv_rt_ext; [apply epoch_fold_rcore|exact Hinv].
+    - cbn [snd]. unfold epoch_change. eapply inv_rt_ext; [apply epoch_fold_rcore|].
+      use_mark e (sorted_ids s) (with_epoch s e).
+      eapply inv_rt_ext; [|exact Hinv]. unfold rcore. rewrite HMrts, HMsusp, HMrtown, HMrtclaims. reflexivity.
     - destruct (reg_runtime_check s caller rt) eqn:EC; try exact Hinv. cbn [snd].
       apply reg_runtime_ok in EC as (Hg & _ & _).
       assert (Ha : exists a, rt_acct rt = Some a).
@@ -283,6 +285,8 @@ Section RtAll.
         rewrite aget_adel_gen, aget_aset_gen. destruct (N.eqb_spec r r') as [<-|Hne]; [rewrite Er|]; reflexivity.
       + intros x; cbn [s_rts s_susp with_rts with_susp]. rewrite aget_adel_gen, aget_aset_gen.
         destruct (N.eqb_spec r x) as [<-|Hne]; [intros W; exfalso; apply W; reflexivity|apply (proj1 Hinv)].
+    - status_ops Hinv.
+    - status_ops Hinv.
   Qed.
 
   Lemma run_rt ops : forall s, Inv_rt s -> forallb tx_op ops = true ->
@@ -333,8 +337,11 @@ Section RtAuth.
       match goal with |- any_runtime (fold_left resume_one ?l ?s0) r = _ =>
         destruct (resume_fold_rt l s0 (proj1 Hinv)) as [A _]; rewrite A; reflexivity end.
     - injection H as <-. exfalso. apply Hch. unfold epoch_change.
-      pose proof (epoch_fold_rcore addr debond e (sorted_ids s) (with_epoch s e)) as R.
-      unfold rcore in R. injection R as R1 R2 _ _. apply any_rt_ext; assumption.
+      pose proof (epoch_fold_rcore addr debond e (sorted_ids s)
+                    (fold_left (mark_one e) (sorted_ids s) (with_epoch s e))) as R.
+      unfold rcore in R. injection R as R1 R2 _ _.
+      use_mark e (sorted_ids s) (with_epoch s e).
+      apply any_rt_ext; [rewrite R1, HMrts|rewrite R2, HMsusp]; reflexivity.
     - destruct (reg_runtime_check s caller rt) eqn:EC; try discriminate. injection H as <-.
       rewrite any_rt_apply in Hch |- *.
       destruct (N.eqb_spec (r_id rt) r) as [E|Hne]; [|exfalso; apply Hch; reflexivity].
@@ -342,6 +349,9 @@ Section RtAuth.
       exists caller, rt. repeat split; auto.
     - destruct (aget r0 (s_rts s)) as [rt|] eqn:Er; try discriminate. injection H as <-.
       exfalso. apply Hch. apply suspend_lookup. exact Er.
+    - destruct (unfreeze_check s txs id); try discriminate.
+      destruct (aget id (s_status s)); injection H as <-; exfalso; apply Hch; reflexivity.
+    - destruct (aget id (s_status s)); try discriminate. injection H as <-. exfalso. apply Hch. reflexivity.
   Qed.
 
   (* rejected runtime registrations *)
@@ -413,7 +423,7 @@ Section RtAuth.
     unfold epoch_one. destruct (aget id0 (s_nodes s)) as [n|]; [|exact H].
     destruct ((n_exp n <? e) && (n_exp n + debond <? e)); [|exact H].
     intros id. unfold remove_node;
-      cbn [s_nthr s_nodes with_nthr with_claims with_nodes with_byent with_addr with_keymap].
+      cbn [s_nthr s_nodes with_status with_nthr with_claims with_nodes with_byent with_addr with_keymap].
     rewrite !aget_adel_gen. destruct (n_id n =? id); [reflexivity|apply H].
   Qed.
 
@@ -425,12 +435,15 @@ Section RtAuth.
     - destruct (reg_node_check maxexp s txs n dsigners sig_ok); try exact H. cbn [snd].
       match goal with |- Inv_thr (fold_left resume_one ?l ?s0) => use_core l s0 end.
       intros id. rewrite HCnthr, HCnodes.
-      cbn [set_node s_nthr s_nodes with_nthr with_claims with_nodes with_byent with_addr with_keymap].
+      cbn [set_node s_nthr s_nodes with_status with_nthr with_claims with_nodes with_byent with_addr with_keymap].
       rewrite !aget_aset_gen. destruct (n_id n =? id); [reflexivity|apply H].
-    - cbn [snd]. unfold epoch_change. apply epoch_fold_thr. exact H.
+    - cbn [snd]. unfold epoch_change. apply epoch_fold_thr.
+      use_mark e (sorted_ids s) (with_epoch s e). intros id. rewrite HMnthr, HMnodes. apply H.
     - destruct (reg_runtime_check s caller rt); try exact H. cbn [snd].
       use_ncore s rt. intros id. rewrite HNnthr, HNnodes. apply H.
     - destruct (aget r (s_rts s)); exact H.
+    - status_ops H.
+    - status_ops H.
   Qed.
 
   Lemma thr_hist ops : forall s, Inv_thr s -> forallb tx_op ops = true ->
